@@ -1553,3 +1553,19 @@ def b_bar_setitem(tier, rnd):
         for i in range(-len(b.bar) - 1, len(b.bar) + 1):
             cases.append((copy.deepcopy(b), i, NoteContainer(["B", "D"])))
     return {"rule": "bars without rests from the 'bar_lift' family x every index incl. one out of range on each side", "cases": cases}
+
+
+@battery("nc_pairs")
+def b_nc_pairs(tier, rnd):
+    pool = _nc_pool(rnd)[:22]
+    from mingus.containers.note_container import NoteContainer
+    from mingus.containers.note import Note
+    extra = []
+    for st in ([("C#", 4)], [("Db", 4)], [("B#", 4)], [("C", 5)], [("C#", 4), ("E", 4)], [("Db", 4), ("Fb", 4)]):
+        nc = NoteContainer()
+        nc.notes = [Note(n, o) for n, o in st]
+        extra.append(nc)
+    pool = pool + extra
+    cases = [(a, b) for a in pool for b in pool] + [(a, None) for a in pool[:5]]
+    return {"rule": "all ordered pairs of 28 containers (incl. the same pitches under other spellings: C#/Db, B#-4/C-5) and "
+                    "comparison with None", "cases": cases}
